@@ -7,7 +7,7 @@ from sim import Config, var, W, R, P, A, N, D, RW
 
 PROP = "C10"
 LEVEL = "exploration"
-RULE = ("histories mixing ticks, NMT commands incl. resets, writes of 1017h through SDO and CODictWrWord, and every other timer user "
+RULE = ("histories mixing ticks, NMT commands incl. resets, writes of 1017h through SDO and CODictWrWord (also while the expired heartbeat event is served but not yet processed), and every other timer user "
         "(TPDO inhibit/event times and triggers, SYNC producer on/off/re-timed, application timers, monitored heartbeats) over heartbeat "
         "times x timer frequencies; the (tick, identifier, dlc, data) heartbeat emissions are compared tick by tick with the reference "
         "schedule; non-trivial = history with >= 3 heartbeats and >= 1 write or NMT change; distinct by script")
@@ -168,6 +168,41 @@ def run_history(res, exe, rng, hidx):
                         fail("write-refused", "CODictWrWord(1017h, %d) failed: %r" % (ms, r)); return
                 m.on_write(ms, sim.tick)
                 nwrites += 1
+            elif x < 0.70:
+                # write of 1017h while the expired heartbeat event is served but not yet processed (tick interrupt before the
+                # background loop reaches the timer processing): the pending heartbeat may still go out in that processing step
+                # (it fell due on this tick), but from the write on only the new period counts
+                if not (m.mode in CODE and m.base is not None and m.P > 0 and m.mode in (PREOP, OP)):
+                    continue
+                d = m.P - ((sim.tick - m.base) % m.P)
+                if d > 300:
+                    continue
+                ms = rng.choice([0] + ms_choices)
+                t0, evs = do("svc %d" % d)
+                if any(cid == 0x700 + nid for (t, cid, dlc, dd, f) in S.txs(evs)):
+                    fail("schedule/deferred", "heartbeat sent by the tick service itself"); return
+                T = sim.tick
+                if rng.random() < 0.5:
+                    script.append("sdo write 1017 = %d" % ms)
+                    code, evs = S.sdo_write(sim, nid, 0x1017, 0, ms, 2)
+                    if code is not None:
+                        fail("write-refused", "SDO write of %d ms to 1017h refused: %r" % (ms, code)); return
+                else:
+                    _, evs = do("wr 1017 0 2 %x" % ms)
+                _, evs2 = do("tproc")
+                for e in evs + evs2:
+                    if e[0] == "cb" and e[1] == "apptmr":
+                        apptmr[:] = [a for a in apptmr if not (a[1] == int(e[2]) and a[2] == 0)]
+                hb = [(t, dd) for (t, cid, dlc, dd, f) in S.txs(evs + evs2) if cid == 0x700 + nid]
+                if len(hb) > 1 or any(t != T or dd != bytes([CODE[m.mode]]) for t, dd in hb):
+                    fail("schedule/deferred-write", "write of 1017h=%d ms with the expired heartbeat event pending (tick %d): heartbeats %r | script tail: %s" % (
+                        ms, T, [(t, dd.hex()) for t, dd in hb], "; ".join(script[-6:]))); return
+                m.count += len(hb)
+                m.on_write(ms, T)
+                nwrites += 1
+                res.counters["writes_with_pending_event"] += 1
+                res.counters["pending_heartbeat_still_sent"] += len(hb)
+                continue
             elif x < 0.75:
                 # PDO / SYNC reconfiguration through SDO
                 if m.mode in (PREOP, OP):
